@@ -7,6 +7,7 @@ import os
 
 from . import common
 from . import hevcgen as H
+from . import hevcmodel as M
 from . import hevcref as F
 from . import hevcrun as R
 
@@ -79,6 +80,13 @@ def run_job(job):
         res = R.run_tool(args, env=env, cwd=jobdir, timeout=job.get("timeout", 180))
     exp = job["expected"]
     out = {"job": job, "res": res, "fail": None, "notes": {}, "cmdline": res.cmdline()}
+    out["model_fail"] = model_check(job, res, outs)
+    if job.get("model_only"):
+        # shapes outside the property's quantifier: only the model's description of the tool is checked
+        if res.crashed():
+            out["fail"] = ("no crash", res.brief())
+        out["class"] = "model-only"
+        return out
     if exp is None:
         # the library refuses to rewrite one of the RPUs: the command must end with an error, not crash
         if res.rc == 0 or res.crashed():
@@ -111,6 +119,25 @@ def run_job(job):
                     break
     out["class"] = "ok"
     return out
+
+
+def model_check(job, res, outs):
+    """the Lean model's answer for the same stream and options against what the CLI did; None = they agree,
+    else (model, implementation)"""
+    if job.get("model_ans") is None:
+        return None
+    c = job["cfg"]
+    m = M.parse_general(job["model_ans"])
+    if m is None:
+        if res.rc == 0 or res.crashed():
+            return ("err (the command fails)", res.brief())
+        return None
+    if res.rc != 0:
+        return ("ok, " + ", ".join("%s: %d NAL units" % (k, len(v)) for k, v in m.items()), res.brief())
+    skip = ("bl",) if c.get("el_only") else ()
+    if c.get("el_only") and os.path.exists(outs["bl"]):
+        return ("no BL writer with --el-only", "BL file written")
+    return M.compare_files(m, outs, check_sc=job["check_sc"], skip=skip)
 
 
 def gen_cfgs(rng, n, chunks, allow_modes=True, stdin_share=3):
@@ -178,7 +205,7 @@ def run(ctx):
     jobs = []
     streams = []
 
-    def add_stream(tag, st, cfgs, check_sc_ok=True):
+    def add_stream(tag, st, cfgs, check_sc_ok=True, model_only=False):
         data = st.render()
         assert H.nal_seq(data) == st.seq(), "generator self-check: render/split disagree"
         sid = len(streams)
@@ -197,7 +224,10 @@ def run(ctx):
             exp = F.ref_general(items, c["cmd"], conv, key=key, discard=c.get("discard", False),
                                 start_code=c.get("start_code"), drop=False)
             jobs.append({"sid": sid, "tag": tag, "cfg": c, "expected": exp, "check_sc": check_sc_ok and not has_tz,
-                         "key": key})
+                         "key": key, "model_only": model_only,
+                         "mline": M.general_line(c["cmd"], items, conv, key=key, discard=c.get("discard", False),
+                                                 el_only=c.get("el_only", False), start_code=c.get("start_code"), drop=False,
+                                                 late=(not c.get("stdin")) and M.first_nal_late(data, c.get("chunk")))})
 
     # ---- class 1: shapes
     n_shape = 400 if quick else 3000
@@ -292,6 +322,21 @@ def run(ctx):
             cfgs += gen_cfgs(r, 3, [None, 1000, 20000])
         add_stream("real", st, cfgs)
 
+    # ---- class 5 (model correspondence only): two RPUs in one access unit.  Outside the property's quantifier (at most
+    # one RPU per access unit); the model says what the tool does (demux / remove discard the second one unless the frame
+    # is frame 0, convert keeps both) and is compared with the CLI
+    for i in range(8 if quick else 60):
+        r = rng.fork("corner%d" % i)
+        specs = H.gen_structure(r, 4, poc_bits=8)
+        st = H.build_stream(r, H.Codec(ps), specs, pick(r, 4), el=r.choice(["free", "none", "parse"]), sc=r.choice(["four", "mixed"]),
+                            tz=0, eos="end", pad=(0, 6))
+        au = st.aus[i % 4]
+        j = next(idx for idx, n in enumerate(au.nals) if n.role == "rpu")
+        au.nals.insert(j + 1, H.Nal(r.choice(uni if uni else rpus), "rpu", au.nals[j].sc))
+        cfgs = [{"cmd": cmd, "chunk": r.choice([257, None]), "stdin": False, "start_code": r.choice([None, "annex-b"])}
+                for cmd in ("convert", "demux", "remove")]
+        add_stream("two-rpus-in-one-au", st, cfgs, model_only=True)
+
     with R.Work("C05") as work:
         for sid, (tag, st, data) in enumerate(streams):
             p = os.path.join(work.dir, "s%d.hevc" % sid)
@@ -301,6 +346,7 @@ def run(ctx):
             j["work"] = work
             j["input"] = os.path.join(work.dir, "s%d.hevc" % j["sid"])
             j["data"] = streams[j["sid"]][2]
+        ctx.count("cases through the Lean model (hevc.general)", M.attach(jobs))
         results = R.pmap(run_job, jobs)
         for k, o in enumerate(results):
             j = o["job"]
@@ -328,6 +374,13 @@ def run(ctx):
             if k % 211 == 0:
                 ctx.sample("%s stream#%d (%d bytes, %d NALs, %d frames): %s -> %s" % (
                     tag, j["sid"], len(data), len(st.nals()), len(st.aus), o["cmdline"].replace(work.dir, "$W"), o.get("class")))
+            if o.get("model_fail") is not None:
+                d = R.save_replay(ctx, "model-s%d-j%d" % (j["sid"], k), {"input.hevc": data},
+                                  {"command": o["cmdline"].replace(j["input"], "input.hevc"), "config": {x: y for x, y in c.items() if x != "pieces"},
+                                   "model": o["model_fail"][0], "implementation": o["model_fail"][1], "structure": H.describe(st)})
+                ctx.disagree("hevc.general " + _cfg_name(c), "%s (stream class %s, seed %d): %s" % (
+                    os.path.join(d, "input.hevc") if d else "stream#%d" % j["sid"], tag, ctx.seed, o["cmdline"].replace(work.dir, "$W")),
+                    o["model_fail"][0], o["model_fail"][1])
             if o["fail"] is not None:
                 case_id = "s%d-j%d" % (j["sid"], k)
                 d = R.save_replay(ctx, case_id, {"input.hevc": data},
